@@ -144,7 +144,9 @@ public:
         for (std::size_t i = 0; i != size; ++i)
         {
             RandomNumberEngine rne;
-            in >> rne;
+            // skip the line break in front of the generator explicitly: the extraction operator of
+            // some engines (e.g. `std::minstd_rand` in libstdc++) does not skip white space
+            in >> std::ws >> rne;
             generators_.push_back(rne);
         }
     }
